@@ -188,7 +188,7 @@ def main():
            "hooks": {"guard": "verif",
                      "enable": "go build -tags verif -overlay /verif/build/overlay.json ./cmd/verifx (add-only files from /verif/harness/overlay + the fail points of internal/verifhook, which are empty functions without the tag)",
                      "baseline_off_cmd": "cd /repo && go test -vet=off -count=1 -timeout 25m ./...",
-                     "source_commits": ["caf7c4a", "b020d2e"], "add_only": True},
+                     "source_commits": ["caf7c4a", "b020d2e", "583e137"], "add_only": True},
            "engines": [{"name": "coq-model+correspondence", "path": "/verif/coq, /verif/harness, /verif/check, /verif/lib, /verif/checks",
                         "serves_properties": sorted(CLAIMS),
                         "kind_free_text": "Gallina model + theorems (Coq 8.16.1), tied to /repo by a differential correspondence check evaluated with vm_compute"}],
